@@ -274,6 +274,7 @@ func TestC18(t *testing.T) {
 	c18Lend(t, tr, rng, a)
 	c18Rates(t, tr, rng, a)
 	c18LendTracker(t, tr, rng, a)
+	c18VaultFlow(t, tr, rng, a)
 }
 
 // c18Float: CalculationOfRewards called directly; groups of related inputs.
@@ -514,7 +515,7 @@ func c18Trackers(t *testing.T, tr *Trace, rng *Rng, a *c18App) {
 				}
 				paid := v2.InterestAccumulated.Sub(v.InterestAccumulated)
 				tr.Line("acc.track", "vault", debt.String(), rate.String(), i64(now), i64(v.BlockHeight), i64(v.BlockTime.Unix()), i64(cfgBT),
-					c18Bits(x), c18Bits(y), c18Bits(p), trB, o, trA, paid.String())
+					c18Bits(x), c18Bits(y), c18Bits(p), trB, o, trA, paid.String(), i64(sctx.BlockHeight()), i64(v2.BlockHeight), i64(v2.BlockTime.Unix()))
 				tr.Count("track:vault:" + o)
 				if paid.IsPositive() {
 					tr.Count("track:vault:paid")
@@ -545,7 +546,7 @@ func c18Trackers(t *testing.T, tr *Trace, rng *Rng, a *c18App) {
 				}
 				paid := l2.ReturnsAccumulated.Sub(l.ReturnsAccumulated)
 				tr.Line("acc.track", "locker", principal.String(), rate.String(), i64(now), i64(l.BlockHeight), i64(l.BlockTime.Unix()), i64(cfgBT),
-					c18Bits(x), c18Bits(y), c18Bits(p), trB, o, trA, paid.String())
+					c18Bits(x), c18Bits(y), c18Bits(p), trB, o, trA, paid.String(), i64(sctx.BlockHeight()), i64(l2.BlockHeight), i64(l2.BlockTime.Unix()))
 				tr.Count("track:locker:" + o)
 				if paid.IsPositive() {
 					tr.Count("track:locker:paid")
@@ -972,6 +973,232 @@ func c18LendTracker(t *testing.T, tr *Trace, rng *Rng, a *c18App) {
 			lend2.GlobalIndex = idx
 			lend2.LastInteractionTime = sctx.BlockTime()
 			k.SetLend(sctx, lend2)
+		}
+	}
+}
+
+// ---------------------------------------------------------------------------------------------
+// vault stability fee, state level: MsgVaultInterestCalc / CalculateVaultInterest / WasmUpdatePairsVault on real
+// records; which interval is accrued (vault stamp vs pair stamp, BlockHeight == 0 flag), tracker, whole units, stamps.
+// Before every pair of consecutive calculations the single calculation over the combined interval is run on a
+// discarded branch of the same state, so that the Lean monitor `accrual_subadditive` compares REAL numbers.
+// ---------------------------------------------------------------------------------------------
+
+func c18Deliver(app *chain.App, ctx sdk.Context, msg sdk.Msg) string {
+	if err := msg.ValidateBasic(); err != nil {
+		return "err"
+	}
+	h := app.MsgServiceRouter().Handler(msg)
+	if h == nil {
+		return "err"
+	}
+	cctx, write := ctx.CacheContext()
+	var err error
+	panicked, _ := try(func() { _, err = h(cctx, msg) })
+	if panicked {
+		return "panic"
+	}
+	if err != nil {
+		return "err"
+	}
+	write()
+	return "ok"
+}
+
+func c18VaultProj(app *chain.App, ctx sdk.Context) []string {
+	p, _ := app.AssetKeeper.GetPairsVault(ctx, 1)
+	v, _ := app.VaultKeeper.GetVault(ctx, 1)
+	trk := "none"
+	if tk, f := app.Rewardskeeper.GetVaultInterestTracker(ctx, 1, 1); f {
+		trk = c18Raw(tk.InterestAccumulated)
+	}
+	return []string{c18Raw(p.StabilityFee), i64(p.BlockHeight), i64(p.BlockTime.Unix()), v.InterestAccumulated.String(), i64(v.BlockHeight), i64(v.BlockTime.Unix()), trk}
+}
+
+func c18VaultFlow(t *testing.T, tr *Trace, rng *Rng, a *c18App) {
+	app, base := a.app, a.ctx
+	owner := sdk.AccAddress([]byte("c18-owner-address---")).String()
+	one := math.Float64bits(1.0)
+	seqs := scale(400, 6000)
+	for sq := 0; sq < seqs; sq++ {
+		ctx, _ := base.CacheContext()
+		mode := rng.Intn(10) // 0-2: opened while the fee was zero, fee switched on later; 3-5: flag 0 with a running fee; else: ordinary
+		fee := big.NewInt(int64(10000000000000000 * (1 + rng.Intn(5)))) // 1 .. 5 %
+		if rng.Chance(30) {
+			fee = c18Rate(rng)
+			if fee.Sign() == 0 {
+				fee = big.NewInt(20000000000000000)
+			}
+		}
+		principal := sdk.NewInt(int64(100000000 + rng.Intn(400000000))) // accrues less than one unit over a few seconds
+		if rng.Chance(35) {
+			principal = c18Amount(rng).QuoRaw(4).AddRaw(1)
+		}
+		t0 := c18Now - int64(rng.Intn(int(2*c18Year)))
+		pbt := t0 - int64(rng.Intn(5000000))
+		startFee := fee
+		pbh, vbh := int64(5), int64(7)
+		switch {
+		case mode <= 2:
+			startFee, pbh, vbh = big.NewInt(0), 0, 0
+		case mode <= 5:
+			vbh = 0
+		}
+		ia0 := sdk.ZeroInt()
+		if rng.Chance(20) {
+			ia0 = sdk.NewInt(int64(rng.Intn(1000000)))
+		}
+		app.AssetKeeper.SetPairsVault(ctx, assettypes.ExtendedPairVault{
+			Id: 1, AppId: 1, PairId: 1, StabilityFee: c18Dec(startFee), ClosingFee: sdk.ZeroDec(), LiquidationPenalty: sdk.ZeroDec(),
+			DrawDownFee: sdk.ZeroDec(), IsVaultActive: true, DebtCeiling: sdk.NewInt(0), DebtFloor: sdk.NewInt(0), MinCr: sdk.OneDec(),
+			PairName: "C18", BlockHeight: pbh, BlockTime: time.Unix(pbt, 0), MinUsdValueLeft: 0,
+		})
+		app.VaultKeeper.SetVault(ctx, vaulttypes.Vault{Id: 1, AppId: 1, ExtendedPairVaultID: 1, Owner: owner, AmountIn: sdk.NewInt(1), AmountOut: principal,
+			CreatedAt: time.Unix(t0, 0), InterestAccumulated: ia0, ClosingFeeAccumulated: sdk.ZeroInt(), BlockHeight: vbh, BlockTime: time.Unix(t0, 0)})
+		app.VaultKeeper.SetAppExtendedPairVaultMappingData(ctx, vaulttypes.AppExtendedPairVaultMappingData{AppId: 1, ExtendedPairId: 1, VaultIds: []uint64{1},
+			TokenMintedAmount: principal, CollateralLockedAmount: sdk.NewInt(1)})
+		trk := "none"
+		if rng.Chance(25) {
+			f0 := c18DecI(int64(rng.U64() % 1000000000000000000))
+			app.Rewardskeeper.SetVaultInterestTracker(ctx, rewardstypes.VaultInterestTracker{VaultId: 1, AppMappingId: 1, InterestAccumulated: f0})
+			trk = c18Raw(f0)
+		}
+		tr.Line("va.begin", "true", startFee.String(), "false", i64(pbh), i64(pbt), principal.String(), ia0.String(), i64(vbh), i64(t0), trk)
+		switch {
+		case mode <= 2:
+			tr.Count("va:start:fee_zero_at_open")
+		case mode <= 5:
+			tr.Count("va:start:flag_zero_fee_running")
+		default:
+			tr.Count("va:start:ordinary")
+		}
+		now := t0
+		height := int64(100)
+		gap := func() int64 {
+			switch rng.Intn(6) {
+			case 0:
+				return 0
+			case 1, 2:
+				return int64(1 + rng.Intn(10))
+			case 3:
+				return int64(rng.Intn(100000))
+			default:
+				return int64(rng.Intn(int(c18Year)))
+			}
+		}
+		// power value the real code will obtain for a calculation at time `at` from the current real state
+		powFor := func(c sdk.Context, at int64, rate sdk.Dec) uint64 {
+			p, _ := app.AssetKeeper.GetPairsVault(c, 1)
+			v, _ := app.VaultKeeper.GetVault(c, 1)
+			since := v.BlockTime.Unix()
+			if v.BlockHeight == 0 {
+				since = p.BlockTime.Unix()
+			}
+			x, y := c18PowArgs(rate, at-since)
+			return math.Float64bits(math.Pow(x, y))
+		}
+		curFee := func(c sdk.Context) sdk.Dec {
+			p, _ := app.AssetKeeper.GetPairsVault(c, 1)
+			return p.StabilityFee
+		}
+		update := func(newFee *big.Int) {
+			now += gap()
+			height++
+			sctx := ctx.WithBlockTime(time.Unix(now, 0)).WithBlockHeight(height)
+			pb := powFor(sctx, now, curFee(sctx))
+			if curFee(sctx).IsZero() && newFee.Sign() != 0 {
+				pb = one
+			}
+			var err error
+			panicked, _ := try(func() {
+				err = app.AssetKeeper.WasmUpdatePairsVault(sctx, &bindings.MsgUpdatePairsVault{AppID: 1, ExtPairID: 1, StabilityFee: c18Dec(newFee),
+					ClosingFee: sdk.ZeroDec(), LiquidationPenalty: sdk.ZeroDec(), DrawDownFee: sdk.ZeroDec(), IsVaultActive: true, MinCr: sdk.OneDec(),
+					DebtCeiling: sdk.NewInt(0), DebtFloor: sdk.NewInt(0), MinUsdValueLeft: 0})
+			})
+			o := c18Outcome(panicked, err)
+			tr.Line("va.update", append([]string{i64(now), i64(height), newFee.String(), u(pb), o}, c18VaultProj(app, sctx)...)...)
+			tr.Count("va:update:" + o)
+		}
+		calc := func(c sdk.Context, at, h int64, kind string) string {
+			sctx := c.WithBlockTime(time.Unix(at, 0)).WithBlockHeight(h)
+			v, _ := app.VaultKeeper.GetVault(sctx, 1)
+			pb := powFor(sctx, at, curFee(sctx))
+			debt := v.AmountOut.Add(v.InterestAccumulated)
+			var o string
+			if kind == "direct" {
+				// the way the liquidation callers use it: same arguments, no message
+				var err error
+				cc, write := sctx.CacheContext()
+				panicked, _ := try(func() { err = app.Rewardskeeper.CalculateVaultInterest(cc, 1, 1, 1, debt, v.BlockHeight, v.BlockTime.Unix()) })
+				o = c18Outcome(panicked, err)
+				if o == "ok" {
+					write()
+				}
+			} else {
+				o = c18Deliver(app, sctx, &vaulttypes.MsgVaultInterestCalcRequest{From: owner, AppId: 1, UserVaultId: 1})
+			}
+			line := "va.calc"
+			f := []string{kind, i64(at), i64(h), debt.String(), i64(v.BlockHeight), i64(v.BlockTime.Unix()), u(pb), o}
+			if kind == "once" {
+				line = "va.once"
+				f = []string{i64(at), i64(h), u(pb), o}
+			}
+			v2, _ := app.VaultKeeper.GetVault(sctx, 1)
+			tr.Line(line, append(f, c18VaultProj(app, sctx)...)...)
+			tr.Count("va:" + kind + ":" + o)
+			if o == "ok" && kind != "once" {
+				if v2.InterestAccumulated.GT(v.InterestAccumulated) {
+					tr.Count("va:calc:whole_units_booked")
+				} else if !curFee(sctx).IsZero() {
+					tr.Count("va:calc:sub_unit")
+					if v.BlockHeight == 0 {
+						tr.Count("va:calc:sub_unit_with_flag_zero")
+					}
+				}
+			}
+			return o
+		}
+		if mode <= 2 { // the fee is switched on through the real binding
+			update(fee)
+		}
+		steps := rng.Range(3, scale(9, 14))
+		for st := 0; st < steps; st++ {
+			p := rng.Intn(100)
+			if st == 0 && mode <= 5 && rng.Chance(70) {
+				p = 99 // start with repeated triggers while the vault still carries the flag
+			}
+			switch {
+			case p < 12:
+				nf := fee
+				switch rng.Intn(3) {
+				case 0:
+					nf = big.NewInt(0)
+				case 1:
+					nf = big.NewInt(int64(10000000000000000 * (1 + rng.Intn(9))))
+				}
+				update(nf)
+			case p < 22:
+				now += gap()
+				height++
+				calc(ctx, now, height, "direct")
+			case p < 26:
+				// the clock never runs backwards on chain; exercised as the error path (message rejected, nothing written)
+				height++
+				calc(ctx, now-int64(1+rng.Intn(1000)), height, "msg")
+			default:
+				d1, d2 := gap(), gap()
+				if rng.Chance(50) || (st == 0 && mode <= 5) {
+					d1, d2 = int64(1+rng.Intn(8)), int64(1+rng.Intn(8)) // repeated triggers a few seconds apart
+				}
+				t1, t2 := now+d1, now+d1+d2
+				// the single calculation over the combined interval, on a branch that is thrown away
+				b, _ := ctx.CacheContext()
+				calc(b, t2, height+2, "once")
+				calc(ctx, t1, height+1, "msg")
+				calc(ctx, t2, height+2, "msg")
+				now, height = t2, height+2
+				tr.Count("va:two_vs_one")
+			}
 		}
 	}
 }
